@@ -442,17 +442,7 @@ def run(ctx):
     # ---- R7 admin identity -----------------------------------------------
     r7 = ctx.rule('R7', 'admin status comes from an exact role match and '
                   'reaches the policy engine unchanged', 'GD')
-    fe = prog.func('mistral.context.MistralContext.from_environ')
-    stores = [(t, st) for t, st in U.attr_stores(fe.node)
-              if t.attr == 'is_admin']
-    if not stores:
-        raise AnalysisError('C16.R7: from_environ no longer sets is_admin')
-    for t, st in stores:
-        r7.check(admin_expr_exact(fe, st.value), ctx.construct(fe, st),
-                 'is_admin is not decided by the exact membership test '
-                 "'admin' in <context>.roles (e.g. substring / "
-                 'case-folded / prefix matches make roles such as '
-                 '"project_admin" administrators)', ctx.loc(fe, st))
+    admin_identity(ctx, r7)
     en = prog.func('mistral.api.access_control.enforce')
     ok = any(isinstance(n, ast.Assign) and
              norm(n.targets[0]) == "policy_context['is_admin']" and
@@ -477,6 +467,23 @@ def run(ctx):
                   'documented moves', 'STATE')
     r6.floor(8)
     documented_moves(ctx, r6)
+
+
+def admin_identity(ctx, r7):
+    """is_admin of a request context is the exact role membership test
+    (shared with C15: every isolation check is bypassed for admins)."""
+    prog = ctx.prog
+    fe = prog.func('mistral.context.MistralContext.from_environ')
+    stores = [(t, st) for t, st in U.attr_stores(fe.node)
+              if t.attr == 'is_admin']
+    if not stores:
+        raise AnalysisError('from_environ no longer sets is_admin')
+    for t, st in stores:
+        r7.check(admin_expr_exact(fe, st.value), ctx.construct(fe, st),
+                 'is_admin is not decided by the exact membership test '
+                 "'admin' in <context>.roles (e.g. substring / "
+                 'case-folded / prefix matches make roles such as '
+                 '"project_admin" administrators)', ctx.loc(fe, st))
 
 
 def scoped_resource_types(prog):
